@@ -268,6 +268,25 @@ PROPS = {
 for _k, _v in PROPS.items():
     _v.setdefault("project", proj_all)
 # the properties whose Props file also asserts the sliced field programs of their own functions: when that
+# pass T8: which Go functions are regenerated as value-level Lean definitions and proved equal to the property's model
+T8 = {
+    "C01": "sign, signRFC6979 (retry loop), SignCompact, PrivateKey.PubKey, fieldToModNScalar",
+    "C02": "Signature.Verify, modNScalarToField",
+    "C03": "splitK, naf, ScalarMultNonConst, ScalarBaseMultNonConst",
+    "C07": "Signature.RecoverPublicKey, Signature.ExportCompact",
+    "C10": "NonceRFC6979 (key-buffer assembly, HMAC prelude, generation loop)",
+    "C11": "schnorrSign, schnorrVerify, schnorr.Sign (retry loop)",
+    "C12": "ExtendedKey.ChildWithIL, pubKeyBytes, serializeCompressedEcdsa, isEven",
+    "C13": "ExtendedKey.UnmarshalBinary, KeyVersion.IsPrivate/ToPublic",
+    "C14": "GenerateSharedSecret",
+    "C15": "KoblitzCurve.IsOnCurve/Add/Double/ScalarMult/ScalarBaseMult, bigAffineToJacobian, jacobianToBigAffine, moduloReduce, PublicKey.X/Y",
+    "C19": "generatePrivateKey (with the reader's final state), PrivKeyFromBytes",
+}
+for _k, _f in T8.items():
+    PROPS[_k]["level_note"] = PROPS[_k].get("level_note", "") + " REGENERATED DRIVERS (tools/gotr pass T8): " + _f + " are translated statement by statement from /repo on every run into value-level Lean definitions (Gen/Drivers.lean) and PROVED equal to the hand-written model for all inputs (theorems *_regenerated in this property's file), so the model is tied to these functions by a theorem and not only by the differential run; T8's semantics is value-level and does not model index/slice panics (DESIGN.md section 11)."
+    PROPS[_k]["technique"] = PROPS[_k]["technique"] + " + regenerated value-level drivers (T8) proved equal to the model"
+    PROPS[_k]["trusted_base"] = list(PROPS[_k]["trusted_base"]) + ["tools/gotr T8 translation of the listed functions (regenerated every run; each definition proved equal to a model that is executed against the real code)"]
+
 # kernel layers: which limb-kernel theorem files (C05 = field.go kernels, C06 = modnscalar.go kernels) each property's
 # value-level model computes through; their lake targets are built as part of the property's check
 for _k, _l in {"C01": ["C05", "C06"], "C02": ["C05", "C06"], "C03": ["C05", "C06"], "C04": ["C05"], "C07": ["C05", "C06"], "C08": ["C05"],
